@@ -1025,4 +1025,249 @@ theorem vose_current_sweep_fuel (n x : Nat) (prob : List Rat) (als : List Nat) (
     voseSweep n (n + 1 - x + k) x prob als = voseSweep n (n + 1 - x) x prob als :=
   vf_sweep_fuel n (n + 1 - x) x prob als k (le_refl _)
 
+/-! ## (H) arbitrary `avg` (the code uses the double `1.0/n`): error bound linear in `|avg - 1/n|` -/
+
+theorem vf_absQ_eq_abs (q : Rat) : absQ q = |q| := by
+  unfold absQ
+  split
+  · rename_i h; rw [abs_of_neg h]
+  · rename_i h; rw [abs_of_nonneg (not_lt.mp h)]
+
+/-- own-column error of the final table beyond the exit residue (`w` stands for `1/n`) -/
+def vf_d (n : Nat) (avg w : Rat) (st : Vose) (i : Nat) : Rat :=
+  if al st i = n then -(avg - w) else clamp01 (pr st i * (n : Rat)) * w - pr st i
+
+/-- error of what column `i` passes on to its alias -/
+def vf_e (n : Nat) (avg w : Rat) (st : Vose) (i : Nat) : Rat :=
+  if al st i = n then 0 else (1 - clamp01 (pr st i * (n : Rat))) * w - (avg - pr st i)
+
+/-- exact mass of the final table for any `avg` (no exit condition needed) -/
+theorem vf_mass_eq_any (p : List Rat) (avg w : Rat) (hlen : 0 < p.length)
+    (hw : (p.length : Rat) * w = 1) (hn : vf_Inv p p.length avg (vf_exit p avg)) :
+    ∀ j, j < p.length →
+      aliasMass (voseBuildFixed p avg).1 (voseBuildFixed p avg).2 j =
+        p.getD j 0 + vf_T p.length avg (vf_exit p avg) j + vf_d p.length avg w (vf_exit p avg) j +
+          ∑ i ∈ Finset.range p.length,
+            (if al (vf_exit p avg) i = j then vf_e p.length avg w (vf_exit p avg) i else 0) := by
+  intro j hj
+  have hnq : (0 : Rat) < (p.length : Rat) := by exact_mod_cast hlen
+  have hn0 : (p.length : Rat) ≠ 0 := ne_of_gt hnq
+  have hn1 : (1 : Rat) ≤ (p.length : Rat) := by exact_mod_cast hlen
+  have hwn : w * (p.length : Rat) = 1 := by rw [mul_comm]; exact hw
+  rw [vf_build_eq]
+  generalize vf_exit p avg = st at hn
+  unfold aliasMass
+  simp only [List.map_map, List.length_map, List.length_range]
+  rw [vf_sum_range_map]
+  have hterm : ∀ i ∈ Finset.range p.length,
+      ((if i = j then clamp01 (((List.range p.length).map
+          ((fun x => x * (p.length : Rat)) ∘
+            fun x => if (al st x == p.length) = true then 1 else pr st x)).getD i 0) else 0) +
+       (if ((List.range p.length).map
+          (fun x => if (al st x == p.length) = true then x else al st x)).getD i 0 = j
+        then 1 - clamp01 (((List.range p.length).map
+          ((fun x => x * (p.length : Rat)) ∘
+            fun x => if (al st x == p.length) = true then 1 else pr st x)).getD i 0) else 0)) =
+      ((if i = j then pr st i else 0) + (if al st i = j then avg - pr st i else 0) +
+        (if i = j then vf_T p.length avg st i else 0) +
+        (if i = j then vf_d p.length avg w st i else 0) +
+        (if al st i = j then vf_e p.length avg w st i else 0)) * (p.length : Rat) := by
+    intro i hi
+    have hi' := Finset.mem_range.mp hi
+    rw [vf_getD_range_map _ _ _ _ hi', vf_getD_range_map _ _ _ _ hi']
+    simp only [Function.comp_apply, beq_iff_eq, vf_T, vf_d, vf_e]
+    by_cases ha : al st i = p.length
+    · simp only [if_pos ha]
+      rw [vf_clamp_ge _ (by linarith), ha, if_neg (by omega : ¬ p.length = j),
+        if_neg (by omega : ¬ p.length = j)]
+      split_ifs <;> linarith
+    · simp only [if_neg ha]
+      generalize clamp01 (pr st i * (p.length : Rat)) = c
+      have h1 : c * w * (p.length : Rat) = c := by rw [mul_assoc, hwn, mul_one]
+      split_ifs <;> linarith
+  rw [Finset.sum_congr rfl hterm, ← Finset.sum_mul]
+  simp only [Finset.sum_add_distrib, Finset.sum_ite_eq', Finset.mem_range, hj, if_true]
+  rw [hn.i1 j hj, mul_div_assoc, div_self hn0, mul_one]
+
+/-- exit residues for any `avg`: they sum to `n·avg - Σp` and all have one sign -/
+theorem vf_exit_T_any (p : List Rat) (avg : Rat) (st : Vose)
+    (hn : vf_Inv p p.length avg st)
+    (hex : ¬ (st.small < p.length ∧ st.large < p.length)) :
+    ∑ i ∈ Finset.range p.length, vf_T p.length avg st i = (p.length : Rat) * avg - p.sum ∧
+    ((∀ i ∈ Finset.range p.length, 0 ≤ vf_T p.length avg st i) ∨
+     (∀ i ∈ Finset.range p.length, vf_T p.length avg st i ≤ 0)) := by
+  have hS : ∑ j ∈ Finset.range p.length, p.getD j 0 = p.sum := (vf_sum_getD p).symm
+  have h1 : ∑ j ∈ Finset.range p.length, p.getD j 0 =
+      ∑ j ∈ Finset.range p.length, pr st j +
+        ∑ j ∈ Finset.range p.length, ∑ i ∈ Finset.range p.length,
+          (if al st i = j then avg - pr st i else 0) := by
+    rw [← Finset.sum_add_distrib]
+    exact Finset.sum_congr rfl (fun j hj => hn.i1 j (Finset.mem_range.mp hj))
+  rw [Finset.sum_comm] at h1
+  have h2 : ∀ i ∈ Finset.range p.length,
+      ∑ j ∈ Finset.range p.length, (if al st i = j then avg - pr st i else 0) =
+        if al st i = p.length then 0 else avg - pr st i := by
+    intro i hi
+    rw [Finset.sum_ite_eq]
+    by_cases h : al st i = p.length
+    · rw [if_pos h, h, if_neg Finset.notMem_range_self]
+    · rw [if_neg h, if_pos (Finset.mem_range.mpr (hn.i2 i (Finset.mem_range.mp hi) h).1)]
+  rw [Finset.sum_congr rfl h2, hS] at h1
+  refine ⟨?_, ?_⟩
+  · have : ∀ i ∈ Finset.range p.length, vf_T p.length avg st i =
+        avg - pr st i - (if al st i = p.length then 0 else avg - pr st i) := by
+      intro i _
+      unfold vf_T
+      split <;> ring
+    rw [Finset.sum_congr rfl this, Finset.sum_sub_distrib, Finset.sum_sub_distrib,
+      Finset.sum_const, Finset.card_range, nsmul_eq_mul]
+    linarith
+  · by_cases hl : st.large < p.length
+    · right
+      have hs : p.length ≤ st.small := by omega
+      have hc := hn.b9 hs
+      intro i hi
+      have hi' := Finset.mem_range.mp hi
+      unfold vf_T
+      split
+      · rename_i ha
+        by_contra hcon
+        have hlt : pr st i < avg := by linarith
+        rcases hn.i5 i hi' ha hlt with h | h <;> omega
+      · exact le_refl _
+    · left
+      intro i hi
+      have hi' := Finset.mem_range.mp hi
+      unfold vf_T
+      split
+      · have := hn.i4 i (by omega) hi'
+        linarith
+      · exact le_refl _
+
+/-- both per-column errors are at most `|avg - 1/n|` -/
+theorem vf_de_bound (p : List Rat) (avg w : Rat) (st : Vose) (hlen : 0 < p.length)
+    (hw : (p.length : Rat) * w = 1) (hn : vf_Inv p p.length avg st) (i : Nat)
+    (hi : i < p.length) :
+    |vf_d p.length avg w st i| ≤ |avg - w| ∧ |vf_e p.length avg w st i| ≤ |avg - w| := by
+  have hnq : (0 : Rat) < (p.length : Rat) := by exact_mod_cast hlen
+  have hwn : w * (p.length : Rat) = 1 := by rw [mul_comm]; exact hw
+  unfold vf_d vf_e
+  by_cases ha : al st i = p.length
+  · rw [if_pos ha, if_pos ha, abs_neg, abs_zero]
+    exact ⟨le_refl _, abs_nonneg _⟩
+  · rw [if_neg ha, if_neg ha]
+    obtain ⟨_, hlt⟩ := hn.i2 i hi ha
+    have h0 := hn.i0 i hi
+    have hm0 : 0 ≤ pr st i * (p.length : Rat) := mul_nonneg h0 (le_of_lt hnq)
+    by_cases hc : pr st i * (p.length : Rat) ≤ 1
+    · rw [vf_clamp_id _ hm0 hc]
+      have e1 : pr st i * (p.length : Rat) * w - pr st i = 0 := by
+        rw [mul_assoc, mul_comm (p.length : Rat) w, hwn]; ring
+      have e2 : (1 - pr st i * (p.length : Rat)) * w - (avg - pr st i) = -(avg - w) := by
+        have : pr st i * (p.length : Rat) * w = pr st i := by
+          rw [mul_assoc, mul_comm (p.length : Rat) w, hwn, mul_one]
+        linarith
+      rw [e1, e2, abs_zero, abs_neg]
+      exact ⟨abs_nonneg _, le_refl _⟩
+    · have hc' : 1 < pr st i * (p.length : Rat) := not_le.mp hc
+      rw [vf_clamp_ge _ (le_of_lt hc')]
+      have hwlt : w < pr st i := by
+        have : w * (p.length : Rat) < pr st i * (p.length : Rat) := by rw [hwn]; exact hc'
+        exact lt_of_mul_lt_mul_right this (le_of_lt hnq)
+      have hpos : 0 < avg - w := by linarith
+      rw [abs_of_pos hpos]
+      constructor
+      · rw [abs_le]; constructor <;> linarith
+      · rw [abs_le]; constructor <;> linarith
+
+theorem vose_correct_any_avg (p : List Rat) (avg : Rat) (hne : p ≠ []) (hnn : ∀ x ∈ p, 0 ≤ x) :
+    ∀ j, j < p.length →
+      absQ (aliasMass (voseBuildFixed p avg).1 (voseBuildFixed p avg).2 j - p.getD j 0) ≤
+        absQ (1 - p.sum) + ((2 * p.length + 1 : Nat) : Rat) * absQ (avg - 1 / (p.length : Rat)) := by
+  intro j hj
+  have hlen : 0 < p.length := List.length_pos_of_ne_nil hne
+  have hnq : (0 : Rat) < (p.length : Rat) := by exact_mod_cast hlen
+  have hn0 : (p.length : Rat) ≠ 0 := ne_of_gt hnq
+  generalize hwdef : 1 / (p.length : Rat) = w
+  have hw : (p.length : Rat) * w = 1 := by rw [← hwdef]; field_simp
+  obtain ⟨hn, hex⟩ := vf_loop_inv p p.length avg (2 * p.length + 1) (vf_init p avg)
+    (vf_init_inv p avg hnn) (by omega)
+  change vf_Inv p p.length avg (vf_exit p avg) at hn
+  change ¬ ((vf_exit p avg).small < p.length ∧ (vf_exit p avg).large < p.length) at hex
+  have hm := vf_mass_eq_any p avg w hlen hw hn j hj
+  obtain ⟨hsumT, hsign⟩ := vf_exit_T_any p avg _ hn hex
+  have hTj := vf_abs_single p.length (vf_T p.length avg (vf_exit p avg)) j hj hsign
+  rw [vf_absQ_eq_abs, vf_absQ_eq_abs, hsumT] at hTj
+  have hd := (vf_de_bound p avg w _ hlen hw hn j hj).1
+  have hE : |∑ i ∈ Finset.range p.length,
+      (if al (vf_exit p avg) i = j then vf_e p.length avg w (vf_exit p avg) i else 0)| ≤
+      (p.length : Rat) * |avg - w| := by
+    refine le_trans (Finset.abs_sum_le_sum_abs _ _) ?_
+    have := Finset.sum_le_card_nsmul (Finset.range p.length)
+      (fun i => |if al (vf_exit p avg) i = j then vf_e p.length avg w (vf_exit p avg) i else 0|)
+      |avg - w| (by
+        intro i hi
+        show |if al (vf_exit p avg) i = j then vf_e p.length avg w (vf_exit p avg) i else 0| ≤ _
+        split
+        · exact (vf_de_bound p avg w _ hlen hw hn i (Finset.mem_range.mp hi)).2
+        · rw [abs_zero]; exact abs_nonneg _)
+    rw [Finset.card_range, nsmul_eq_mul] at this
+    exact this
+  have hslack : |(p.length : Rat) * avg - p.sum| ≤ |1 - p.sum| + (p.length : Rat) * |avg - w| := by
+    have e : (p.length : Rat) * avg - p.sum = (1 - p.sum) + (p.length : Rat) * (avg - w) := by
+      rw [mul_sub, hw]; ring
+    rw [e]
+    refine le_trans (abs_add_le _ _) ?_
+    have hmul : |(p.length : Rat) * (avg - w)| = (p.length : Rat) * |avg - w| := by
+      rcases le_total 0 (avg - w) with h | h
+      · rw [abs_of_nonneg h, abs_of_nonneg (mul_nonneg (le_of_lt hnq) h)]
+      · rw [abs_of_nonpos h, abs_of_nonpos (mul_nonpos_of_nonneg_of_nonpos (le_of_lt hnq) h),
+          mul_neg]
+    rw [hmul]
+  rw [vf_absQ_eq_abs, vf_absQ_eq_abs, vf_absQ_eq_abs, hm]
+  have e : p.getD j 0 + vf_T p.length avg (vf_exit p avg) j + vf_d p.length avg w (vf_exit p avg) j +
+      ∑ i ∈ Finset.range p.length,
+        (if al (vf_exit p avg) i = j then vf_e p.length avg w (vf_exit p avg) i else 0) - p.getD j 0 =
+      vf_T p.length avg (vf_exit p avg) j + vf_d p.length avg w (vf_exit p avg) j +
+      ∑ i ∈ Finset.range p.length,
+        (if al (vf_exit p avg) i = j then vf_e p.length avg w (vf_exit p avg) i else 0) := by ring
+  rw [e]
+  have t1 := abs_add_le (vf_T p.length avg (vf_exit p avg) j + vf_d p.length avg w (vf_exit p avg) j)
+    (∑ i ∈ Finset.range p.length,
+        (if al (vf_exit p avg) i = j then vf_e p.length avg w (vf_exit p avg) i else 0))
+  have t2 := abs_add_le (vf_T p.length avg (vf_exit p avg) j) (vf_d p.length avg w (vf_exit p avg) j)
+  push_cast
+  linarith
+
+/-- for the value the code uses: `avg` within `2^-53` of `1/n` (true of the double `1.0/n`)
+    and an input accepted by `isProbability` -/
+theorem vose_correct_double_avg (p : List Rat) (avg : Rat) (hne : p ≠ []) (hp : isProb p = true)
+    (havg : absQ (avg - 1 / (p.length : Rat)) ≤ 1 / 2 ^ 53) :
+    ∀ j, j < p.length →
+      absQ (aliasMass (voseBuildFixed p avg).1 (voseBuildFixed p avg).2 j - p.getD j 0) ≤
+        AITB.Gen.equalToleranceSmall + ((2 * p.length + 1 : Nat) : Rat) / 2 ^ 53 := by
+  intro j hj
+  simp only [isProb, eqSmall, Bool.and_eq_true, List.all_eq_true, Bool.not_eq_true',
+    decide_eq_false_iff_not, not_lt, decide_eq_true_eq] at hp
+  have h1 := vose_correct_any_avg p avg hne hp.1 j hj
+  have h2 : absQ (1 - p.sum) ≤ AITB.Gen.equalToleranceSmall := by
+    rw [vf_absQ_sub_comm 1 p.sum]; exact hp.2
+  have hC : (0 : Rat) ≤ ((2 * p.length + 1 : Nat) : Rat) := Nat.cast_nonneg _
+  have h3 := mul_le_mul_of_nonneg_left havg hC
+  rw [mul_one_div] at h3
+  linarith
+
+/-- test: the bound of `vose_correct_any_avg` evaluated for an `avg` above and below `1/3` -/
+example : (List.range 3).all (fun j => decide (
+    absQ (aliasMass (voseBuildFixed [1/2, 1/4, 1/4] (1/3 + 1/1000)).1
+      (voseBuildFixed [1/2, 1/4, 1/4] (1/3 + 1/1000)).2 j - ([1/2, 1/4, 1/4] : List Rat).getD j 0) ≤
+    absQ (1 - ([1/2, 1/4, 1/4] : List Rat).sum) + ((2 * 3 + 1 : Nat) : Rat) * absQ ((1/3 + 1/1000) - 1 / 3))) = true := by
+  decide +kernel
+
+example : (List.range 3).all (fun j => decide (
+    absQ (aliasMass (voseBuildFixed [1/2, 1/4, 1/4] (1/3 - 1/1000)).1
+      (voseBuildFixed [1/2, 1/4, 1/4] (1/3 - 1/1000)).2 j - ([1/2, 1/4, 1/4] : List Rat).getD j 0) ≤
+    absQ (1 - ([1/2, 1/4, 1/4] : List Rat).sum) + ((2 * 3 + 1 : Nat) : Rat) * absQ ((1/3 - 1/1000) - 1 / 3))) = true := by
+  decide +kernel
+
 end AITB.Sampling
